@@ -913,8 +913,14 @@ func evalFunctionApplication(node *jparse.FunctionApplicationNode, data reflect.
 	// evaluate it.
 	if f, ok := node.RHS.(*jparse.FunctionCallNode); ok {
 
-		f.Args = append([]jparse.Node{node.LHS}, f.Args...)
-		return evalFunctionCall(f, data, env)
+		// Build a new call node rather than updating the
+		// parsed one: the syntax tree is shared by every
+		// evaluation of the expression.
+		call := &jparse.FunctionCallNode{
+			Func: f.Func,
+			Args: append([]jparse.Node{node.LHS}, f.Args...),
+		}
+		return evalFunctionCall(call, data, env)
 	}
 
 	// Evaluate both sides and return any errors.
